@@ -9,6 +9,7 @@ from vlib import Case, Rng
 
 ID = "C06"
 PROPS_MODULE = "AmqModel.Props.C06"
+EXTRA_PROPS_MODULES = ["AmqModel.Props.RoundTrip"]      # sender o receiver: the body frames of every publish, enveloped and concatenated, are cut by the decode loop into exactly those frames again
 NONTRIVIAL_RULE = "stream has >= 2 frames and at least one cut falls strictly inside a frame"
 MODEL_SCOPE = "src/frame_buffer.rs: Inner::read_from over input_buffer (reserve sizes included), AmqpFrameKind::parse_size; amq-protocol's parse_frame is an oracle (A1)"
 ASSUMPTIONS = [
